@@ -9,7 +9,6 @@ import (
 	"net/http"
 	"net/http/httptest"
 	"strconv"
-	"strings"
 	"sync"
 	"testing"
 	"time"
@@ -46,6 +45,7 @@ type stub struct {
 	mu    sync.Mutex
 	specs []PluginSpec
 	calls []call
+	epoch int
 	srv   *httptest.Server
 }
 
@@ -63,11 +63,17 @@ func getStub() *stub {
 	return theStub
 }
 
-func (st *stub) reset(specs []PluginSpec) {
+// reset starts a new case and returns its epoch: every plugin path of the case carries it, and calls that still arrive
+// from the server of an earlier case (session-end notifications are sent asynchronously) are answered 404 and ignored.
+func (st *stub) reset(specs []PluginSpec) int {
 	st.mu.Lock()
+	defer st.mu.Unlock()
+	st.epoch++
 	st.specs, st.calls = specs, nil
-	st.mu.Unlock()
+	return st.epoch
 }
+
+func pluginPath(epoch, i int) string { return fmt.Sprintf("/e%d/p%d", epoch, i) }
 
 func (st *stub) snapshot() []call {
 	st.mu.Lock()
@@ -89,11 +95,18 @@ func markField(op string) []string {
 }
 
 func (st *stub) handle(w http.ResponseWriter, r *http.Request) {
-	if !strings.HasPrefix(r.URL.Path, "/p") || r.Method != "POST" {
+	var ep, idx int
+	if n, _ := fmt.Sscanf(r.URL.Path, "/e%d/p%d", &ep, &idx); n != 2 || r.Method != "POST" {
 		w.WriteHeader(404) // e.g. the target of the 302 outcome
 		return
 	}
-	idx, _ := strconv.Atoi(strings.TrimPrefix(r.URL.Path, "/p"))
+	st.mu.Lock()
+	stale := ep != st.epoch
+	st.mu.Unlock()
+	if stale {
+		w.WriteHeader(404)
+		return
+	}
 	body, _ := io.ReadAll(r.Body)
 	var req struct {
 		Version string         `json:"version"`
@@ -225,18 +238,18 @@ func expect(chain []PluginSpec, op string, start string) (consulted []int, seen 
 	return consulted, seen, allowed, cur
 }
 
-func buildManager(st *stub, chain []PluginSpec) *plugin.Manager {
+func buildManager(st *stub, ep int, chain []PluginSpec) *plugin.Manager {
 	m := plugin.NewManager()
 	for i, p := range chain {
-		m.Register(plugin.NewHTTPPluginOptions(v1.HTTPPluginOptions{Name: fmt.Sprintf("p%d", i), Addr: st.srv.Listener.Addr().String(), Path: fmt.Sprintf("/p%d", i), Ops: p.Ops}))
+		m.Register(plugin.NewHTTPPluginOptions(v1.HTTPPluginOptions{Name: fmt.Sprintf("p%d", i), Addr: st.srv.Listener.Addr().String(), Path: pluginPath(ep, i), Ops: p.Ops}))
 	}
 	return m
 }
 
 func runM(c MCase) error {
 	st := getStub()
-	st.reset(c.Chain)
-	m := buildManager(st, c.Chain)
+	ep := st.reset(c.Chain)
+	m := buildManager(st, ep, c.Chain)
 	user := plugin.UserInfo{User: "u", RunID: "r"}
 	start := "v0"
 	var err error
